@@ -651,7 +651,7 @@ def stream_binary_cuts(ctx, B):
     """Every single and double cut (empty reads included) of streams of THREE small messages whose byte
     orders alternate: cuts at message boundaries, inside the next fixed header, mixed byte orders in a read."""
     rng = ctx.rng
-    n_streams = ctx.scale(quick=2, thorough=120)
+    n_streams = ctx.scale(quick=2, thorough=60)
     for s in range(n_streams):
         first_big = rng.random() < 0.5
         k = 3 if ctx.tier == 'quick' else rng.choice([3, 3, 4])
